@@ -25,6 +25,51 @@ CHECKS = {
     "C06": den("TLC checks all 1440 minutes x all clock notations at rule level and the latent anchoring (first such minute strictly after the reference minute, < 24 h) incl. equality and roll-over cases; the real productions and the real post-processing step are called for all minutes, ctparse() on every notation, judged by TLC. One recorded finding (bare hour + part of day).", "DESIGN.md section 4 (C06)"),
     "C07": den("TLC checks all 24x24 hour pairs x minute variants x contexts (date, latent, bare) for from=A, to=B after the stated wrap, from<to, <=24h, ordered/reversed date pairs and the four half-open forms, on Rules composed with Postprocess; real productions called on all pairs; ctparse() on all pairs x joiners x contexts judged by TLC.", "DESIGN.md section 4 (C07)"),
     "C08": den("TLC checks N in 0..120 x units, all number words, half forms, date+for+duration on every start date of the cycle with dateutil month clipping, and the duration/date-range consistency rule; every number word x unit word of the frozen lexicon goes through the tree's own pattern and production (token meaning from the lexicon), ctparse() end to end, judged by TLC.", "DESIGN.md section 4 (C08)"),
+    "C01": ("model_checking",
+            "TLA+ specs Derive.tla (every rule composition over a representative token alphabet: NoRaise, strictly decreasing measure), SearchImpl.tla (termination under every scorer / expiry point), Preprocess.tla, Api.tla model-checked by TLC; API-call observations judged by the TLC trace module TotalTrace; rule rows by RulesTrace",
+            "Model level: no applicable production raises on any token sequence of length <= K (K=2 quick, 3 thorough) x boundary reference times, every rewrite strictly decreases a well-founded measure (so the search space is finite and the stream ends without a timeout), the search terminates under every scorer and expiry point, normalisation and the single-result pick are total. Implementation: ctparse(), exhaustion of ctparse_gen() and debug=True over class strings (separator/dash/letter/digit/punctuation/exotic, length <= 5-6), lexeme soups, hazard texts and the corpus x reference times 1970-2100 (sub-minute parts, omitted) x the option grid incl. the model-absent fallback; plus the package import with the model file absent.",
+            "trusts: TLC; string length and K are bounded; a wall-clock timeout is only smoke-tested here (C13 enumerates expiry points with a virtual clock)",
+            "DESIGN.md section 4 (C01)"),
+    "C02": ("model_checking",
+            "TLA+ spec Derive.tla with Values!WellFormed model-checked by TLC over all token sequences of length <= K; every streamed candidate of the real parser judged by the TLC trace module CandTrace (same WellFormed predicate, spans, accessor operators); rule rows by RulesTrace",
+            "TLC proves AllWF / AccessorsTotal / PodsKnown / PostWF (latent anchoring keeps values well formed) for every composition of rules over the representative alphabet (dates incl. 29/30/31 and Feb, clocks, durations, modifier chains) x 4-8 reference times, with the part-of-day table exported from the tree under test. All candidates (not only the winner) of corpus, hazard and random lexeme texts, latent on/off, are judged: field ranges, day exists in month/year, known part of day, dated start <= end, .start/.end/.dt never raise and equal the specification's accessors, 0 <= mstart < mend <= len(text).",
+            "trusts: TLC; the representative token payloads; projections of harness/qa.py",
+            "DESIGN.md section 4 (C02)"),
+    "C09": ("model_checking",
+            "TLA+ specs Lattice.tla + Embed.tla model-checked by TLC (admitted candidate sequences of an embedded text = shifted ones of the bare text when match spans exclude trailing blanks; counterexample in 'raw' mode); real lexer/sequence enumeration bound by LatticeTrace; embeddings judged by VariantTrace",
+            "TLC checks the embedding invariant over all small match universes (<= 3 matches on 4 positions, patterns with/without trailing optional whitespace, with/without suffix). The real _match_regex/_regex_stack output is judged equal to the specification's maximal gap-free paths on every bare and embedded text. Every grammar production and corpus expression is embedded in 0-3 inert words on each side (inertness decided by the library's own patterns, in context), latent on and off; TLC accepts iff the resolution equals the bare one and the span is the bare span shifted (and the whole expression for grammar productions).",
+            "trusts: TLC; inert-word pool filtered by the tree's own patterns; regular-expression matching itself is observed, not modelled",
+            "DESIGN.md section 4 (C09)"),
+    "C10": ("model_checking",
+            "TLA+ spec Subject.tla model-checked by TLC over all arrangements of <= 4 items; four real parses per arrangement judged by the TLC trace module SubjectTrace",
+            "TLC shows the subject constraint (subsequence of the non-hashtag words, keeps every inert word, contains no word wholly inside a used pattern match) is satisfiable and closed under removing hashtags / the time expression for every arrangement. Real texts are assembled for every order of item kinds (inert, ordinary, hashtag, time expression; up to 5 items) with the library's separator characters; labels, subject, hashtag independence of resolution and subject, and the no-match path are judged by the same operators.",
+            "trusts: TLC; ASCII words; words compared after the engine's own splitting on whitespace and '-'",
+            "DESIGN.md section 4 (C10)"),
+    "C11": ("model_checking",
+            "TLA+ spec Preprocess.tla model-checked exhaustively by TLC over all class strings up to length 8; the real _preprocess_string judged by PreprocessTrace on every assigned code point and on instantiated class strings; metamorphic variants judged by VariantTrace",
+            "TLC proves idempotence, separator runs = one blank, dash runs = '-', no edge blanks, characters kept in order on all 9841 class strings. The class abstraction is bound to the code on every assigned Unicode code point (thorough; quick: all separators, dashes, punctuation + a sample of letters/symbols/private use) and on every class string up to length 6 with random members; corpus and grammar expressions under separator, dash and case substitution must resolve like the plain text.",
+            "trusts: TLC; unicodedata of the interpreter for the class of a code point (unassigned code points are outside the quantifier)",
+            "DESIGN.md section 4 (C11)"),
+    "C16": ("translation_validation",
+            "TLA+ spec NaiveBayes.tla (n-gram windows, vocabulary, per-class counts, smoothing denominators) model-checked by TLC; for every corpus TLC computes the sufficient statistics, the harness evaluates the textbook formula on them and compares with the fitted real pipeline",
+            "Equivalence of the in-house pipeline with textbook Laplace-smoothed multinomial NB over 1-3-grams: exhaustive over alphabet {a,b}, <= 3 documents of <= 3 tokens, both classes, 7 query shapes (unseen / repeated tokens, empty); seeded random corpora above; |delta| < 1e-9, finite, probabilities sum to one, save+reload changes nothing; score / score_final composition checked on every scoring call of corpus parses under the shipped model.",
+            "trusts: TLC for the integer statistics; Python floats for log/exp on both sides; the shipped model's training set is not available (only composition and vocabulary are checked for it)",
+            "DESIGN.md section 4 (C16)"),
+    "C17": ("exploration",
+            "TLA+ spec Training.tla (Samples(stream, gold) with value equality of Values.tla); both dataset builders judged by the TLC trace module TrainingTrace; duplication monotonicity tested exhaustively on a tiny domain and randomly above",
+            "For every entry the stream is recorded independently and TLC accepts the emitted samples iff they are exactly one sample per non-empty prefix of every candidate's trace, labelled by value equality with the gold (spans ignored) - bundled dataset, corpora and generated Time/Interval/Duration entries. Adding k copies of a positive example never lowers its score: all training sets of <= 3 traces of length <= 3 over 2 tokens, k <= 3, plus seeded random sets.",
+            "trusts: TLC; the monotonicity clause is tested, not proved",
+            "DESIGN.md section 4 (C17)"),
+    "C18": ("exploration",
+            "TLA+ spec ValueDomain.tla / ValueEq.tla: TLC enumerates and checks the value domain; pairs of real objects built with different spans judged by the TLC trace module ValueEq",
+            "Every Time over absent/min/max field values against itself and every single-field variation, all pairs of intervals over a base of ends incl. open ends, all pairs of durations over amounts x units, and every gold string of the bundled dataset/corpus: == iff same value, equal values hash equal, printed form injective, parse(print(A)) = A.",
+            "trusts: TLC; pairs differing in more than one Time field are sampled through the single-field variations only",
+            "DESIGN.md section 4 (C18)"),
+    "C19": ("model_checking",
+            "TLA+ specs Derive.tla (all modifier chains up to depth 6/7: PodsKnown) model-checked by TLC with the part-of-day table of the tree; registry / syntax tree / probes / shipped vocabulary judged by the TLC trace module RuleBase against the frozen RuleTable.tla; firing rows by RulesTrace",
+            "TLC explores every chain of early/late/very modifiers on every part of day against the exported table. One structural observation of the tree: every @rule definition of the syntax tree is registered under a unique name, no adjacent patterns, text <-> id bijection, no empty / zero-length match, every rule fires, every vocabulary unigram is a pattern id or rule name, and every shipped pattern id is still read by the same rule (ids are the model's features).",
+            "trusts: TLC; probe texts for zero-length matches; 'can fire' witnessed on corpus + lexeme soups",
+            "DESIGN.md section 4 (C19)"),
     "C12": ("model_checking",
             "TLA+ spec Sessions.tla: TLC enumerates every schedule of 2-3 suspended candidate streams (incl. abandonment, scorer crash); each is replayed on real generators; histories, threads and hash seeds recorded and judged by the TLC trace module SessionsTrace against fresh-process results",
             "TLC proves on the model that streams only touch frame-local state and exports ALL interleavings for small streams; every one is replayed on real ctparse_gen generators and each yielded tuple (resolution, span, score, production, subject, labels) compared with a fresh single-call interpreter; random call histories (with abandoned streams and failing calls), 8 threads at 1 us switch interval and several PYTHONHASHSEED values are judged the same way, with digests of the rule registry / patterns / model / arguments before and after. Rule applications are additionally judged argument-pure (RulesTrace) and candidates stable after yield (DeriveText). Exhaustive for the generator schedules, exploration for threads.",
